@@ -21,7 +21,13 @@ SettingsPool ==
      [builder |-> TRUE],
      [builder |-> FALSE, map |-> "mymap"],
      [builder |-> FALSE, derives |-> <<"PartialEq", "Eq">>],
-     [builder |-> TRUE, typeMod |-> "types"] >>
+     [builder |-> TRUE, typeMod |-> "types"],
+     (* conversion targets declaring each subset of {FromStr, Display} (documents of family G7 only) *)
+     [builder |-> FALSE, convert |-> << [schema |-> PathS, ty |-> "crate::support::PathLike", impls |-> <<"FromStr">>] >>],
+     [builder |-> FALSE, convert |-> << [schema |-> PathS, ty |-> "crate::support::ShowOnly", impls |-> <<"Display">>] >>],
+     [builder |-> FALSE, convert |-> << [schema |-> PathS, ty |-> "crate::support::Num", impls |-> << >>] >>],
+     [builder |-> TRUE, convert |-> << [schema |-> PathS, ty |-> "::std::string::String", impls |-> <<"FromStr", "Display">>] >>] >>
+ConvIdx == {7, 8, 9, 10}
 
 (* ingestion histories for one document *)
 DefSeq(defs) == LET ns == SetToSeq(DOMAIN defs) IN [j \in DOMAIN ns |-> <<ns[j], defs[ns[j]]>>]
@@ -36,8 +42,9 @@ Calls(doc, mode) ==
                                               defs |-> [n \in DOMAIN doc.defs \ {"T"} |-> doc.defs[n]]]] >>
 
 Init == d \in DOMAIN Universe /\ s = 1 /\ m = "root"
-NextSettings == s \in SettingsIdx /\ \E s2 \in SettingsIdx : s2 > s /\ s' = s2 /\ UNCHANGED <<d, m>>
-NextMode == m = "root" /\ \E m2 \in Modes \ {"root"} : m' = m2 /\ UNCHANGED <<d, s>>
+NextSettings == \/ s \in SettingsIdx /\ \E s2 \in SettingsIdx : s2 > s /\ s' = s2 /\ UNCHANGED <<d, m>>
+                \/ s = 1 /\ m = "root" /\ Universe[d].fam = "G7" /\ \E s2 \in ConvIdx : s' = s2 /\ UNCHANGED <<d, m>>
+NextMode == m = "root" /\ s \notin ConvIdx /\ \E m2 \in Modes \ {"root"} : m' = m2 /\ UNCHANGED <<d, s>>
 Next == NextSettings \/ NextMode
 Spec == Init /\ [][Next]_vars
 
